@@ -50,3 +50,23 @@ func genC08(rt *rapid.T) *C08Spec {
 func TestC08Compose(t *testing.T) {
 	rapidCheck(t, "C08Compose", func(rt *rapid.T) interface{} { return genC08(rt) })
 }
+
+func TestC08Lines(t *testing.T) {
+	conts := [][]byte{{0xBA}, {0xB9}, {0x80, 0xBA}, {0x80, 0xB9, 'x'}, {0xBA, 'S', 'E', 'C'}, []byte("x"), {0xA9}, []byte(endS), []byte("\n\xba")}
+	rapidCheck(t, "C08Lines", func(rt *rapid.T) interface{} {
+		s := &C08Lines{Route: pick(rt, "route", []string{"Sprintf", "Sprintf", "Sprint", "SB", "SafeCont", "Lines", "Lines"})}
+		// tokens before a line feed that end in a truncated sequence are likely
+		n := rapid.IntRange(1, 4).Draw(rt, "nl")
+		for i := 0; i < n; i++ {
+			s.Payload = append(s.Payload, genBytes(rt, "p", 3)...)
+			if rapid.Bool().Draw(rt, "trunc") {
+				s.Payload = append(s.Payload, [][]byte{{0xE2}, {0xE2, 0x80}, {0xC3}, {0xF0, 0x9F}}[rapid.IntRange(0, 3).Draw(rt, "tk")]...)
+			}
+			s.Payload = append(s.Payload, '\n')
+		}
+		s.Payload = append(s.Payload, genBytes(rt, "tail", 2)...)
+		s.Safe = rapid.IntRange(0, 3).Draw(rt, "safe") == 0
+		s.Cont = conts[rapid.IntRange(0, len(conts)-1).Draw(rt, "cont")]
+		return s
+	})
+}
